@@ -741,7 +741,9 @@ def run(R):
                 rep["input"] = "\n".join(small) + "\n"
             R.violation("%s  [image: %s %s]" % (msg, name if name != "random" else gen, summarize(img.desc)), rep, key=key)
             break
+    t_pick = time.time()
     npick, pick_kinds = run_picks(R, picks) if not R.violations else (0, {})
+    t_pick = round(time.time() - t_pick, 2)
     if not R.violations and proof["broken"]:
         R.violation("proof obligations broken: %s" % proof["broken"],
                     dict(stream="lean", broken_theorems=proof["broken"], lean_log=proof["log"][-2000:]), found_input=False)
@@ -771,7 +773,14 @@ def run(R):
                     "around every region of the image and every range the library created, interiors, 2M/1G boundaries; non-trivial = mapped "
                     "addresses answered by a LINEAR fast path of the library; unit: random layouts for sys_set_layout/sys_set_physmaps and random "
                     "x86-64 tables for the scanners, implementation vs Lean model and vs interval oracle",
-               samples=samples, traces_validated_against_impl=unit_obs + npick, setup_decisions_vs_model=npick, setup_decision_kinds=pick_kinds, unit_scan_vs_oracle=unit_scan_checked,
+               rule_round4="ia32 images taken in process context: CR3 / rootpgt name the crashing task's root (non-PAE page directory with user "
+                           "mappings incl. a slot-6 mapping whose bytes parse as a complete PAE walk of 0xc0000000; PAE PDPT at any 32-byte slot of "
+                           "a pgd_cache slab page with live / freed / garbage / no neighbours); Xen 3.2-3.4 images with an ioremap area (4K pages "
+                           "and 2M superpages, each piece with its own offset, optionally a superpage at the 4.0-dev text address).  ospick: for "
+                           "every ia32 and Xen image the decisions check_pae (PAE / non-PAE / fail), get_linux_pgt_root (root handed to the walk) "
+                           "and the Xen text probe (text base, 1T/5T direct map) as read from the implementation's final methods and maps are "
+                           "compared with Kdf.Model.OsPick run on the same memory cells (driver stream os, ops `ospick ...`)",
+               samples=samples, traces_validated_against_impl=unit_obs + npick, setup_decisions_vs_model=npick, setup_decision_kinds=pick_kinds, setup_decisions_wall_s=t_pick, unit_scan_vs_oracle=unit_scan_checked,
                unit_case_kinds=dict(sorted(unit_kinds.items())), images=tot, images_per_generator=per_gen,
                parameter_histogram=dict(sorted(hist.items())), scenarios=[s[0] for s in SCENARIOS])
     return "proof", cov, ["get_page is a deterministic function of the page address",
@@ -786,8 +795,12 @@ def run(R):
                           "told enough (Img.root_known: a root it can read in the order of precedence the set-up code documents, and the paging "
                           "depth); the arm, ia32, riscv64, aarch64 and history extensions are implementation-only (image generators + Python "
                           "oracle), the theorems are unchanged",
-                          "the theorems cover the generic layout machinery and the scanners on the x86-64 paging forms; the x86_64.c decision "
-                          "logic is covered by the image stream only"]
+                          "the theorems cover the generic layout machinery and the scanners on the x86-64 paging forms; of the decision logic "
+                          "only check_pae, get_linux_pgt_root (ia32.c) and the Xen text probe order of map_xen_x86_64 are modelled "
+                          "(Kdf.Model.OsPick; the implementation's decision is read off its final methods/maps, the functions are static); the rest "
+                          "of the x86_64.c decision logic is covered by the image stream only",
+                          "the task-root and ioremap image extensions are implementation-only as far as the property evaluation goes (generators + "
+                          "Python walks); CR3 flag bits PWT/PCD are 0 in ia32 images (Linux never sets them)"]
 
 
 def replay(R, path):
